@@ -4,6 +4,7 @@ import ChipFiring.Model.Machines
 import ChipFiring.Model.Txt
 import ChipFiring.Model.TxtFile
 import ChipFiring.Model.JsonText
+import ChipFiring.Model.JsonDecode
 open Lean CF
 namespace Drv
 
@@ -194,5 +195,13 @@ def opJsonText (j : Json) : M Json := do
       pure <| Json.mkObj [("text", jStr (match asWritten with | some (t, _) => t | none => shape)),
         ("shape_text", jStr shape), ("is_dict", Json.bool (match asWritten with | some (_, b) => b | none => true)),
         ("open", opens), ("prefix_not_none", jNat 0)]
+
+/-- the string scanner of the JSON decoder on a given text (`json.loads` of a string literal) -/
+def opJsonStr (j : Json) : M Json := do
+  let t := (← (← j.getObjVal? "text").getStr?).toList
+  pure <| Json.mkObj [("decoded", match JsonText.decodeStr t with
+    | some s => jStr s
+    | none => Json.null),
+    ("encoded", jStr (JsonText.quote ((← (← j.getObjVal? "name").getStr?).toList)))]
 
 end Drv
